@@ -2,8 +2,8 @@
 from core import Case, enc_b, enc_s, psec
 from props.cardutil import digits, rb
 
-OBLIGATIONS = ["Psec.Props.C06.decodeBody_eq_spec", "Psec.Props.C06.decode_iso0_iff", "Psec.Props.C06.decode_iso2_iff", "Psec.Props.C06.decode_iso3_iff", "Psec.Props.C06.decode_iso4_field_iff", "Psec.Props.C06.decode_wrong_size", "Psec.Props.C06.decode_outcomes", "Psec.Props.C06.wellFormed_pin", "Psec.Props.C06.cross_format", "Psec.Props.C06.iso0_iso3_exclusive", "Psec.Props.C06.wellFormed_iso0_unique", "Psec.Props.C06.iso0_pan_binding", "Psec.Props.C06.iso4_pan_binding_partial", "Psec.Props.C06.iso4_pan_field_injective", "Psec.Props.C06.iso4_pan_field_injective_long", "Psec.Props.C06.iso4_decipher_other_pan", "Psec.Props.C06.iso4_wrong_pan_reduction", "Psec.Props.C06.C06_iso4_binding_of_no_structured_hit"]
-EXTRA_MODULES = ["PsecModel.Lemmas.PanField", "PsecModel.Lemmas.Iso4Binding"]
+OBLIGATIONS = ["Psec.Props.Translate.decoded_pin_is_pinOk", "Psec.Props.Translate.translate_to_iso0_iso2", "Psec.Props.C06.decodeBody_eq_spec", "Psec.Props.C06.decode_iso0_iff", "Psec.Props.C06.decode_iso2_iff", "Psec.Props.C06.decode_iso3_iff", "Psec.Props.C06.decode_iso4_field_iff", "Psec.Props.C06.decode_wrong_size", "Psec.Props.C06.decode_outcomes", "Psec.Props.C06.wellFormed_pin", "Psec.Props.C06.cross_format", "Psec.Props.C06.iso0_iso3_exclusive", "Psec.Props.C06.wellFormed_iso0_unique", "Psec.Props.C06.iso0_pan_binding", "Psec.Props.C06.iso4_pan_binding_partial", "Psec.Props.C06.iso4_pan_field_injective", "Psec.Props.C06.iso4_pan_field_injective_long", "Psec.Props.C06.iso4_decipher_other_pan", "Psec.Props.C06.iso4_wrong_pan_reduction", "Psec.Props.C06.C06_iso4_binding_of_no_structured_hit"]
+EXTRA_MODULES = ["PsecModel.Lemmas.PanField", "PsecModel.Lemmas.Iso4Binding", "PsecModel.Props.Translate"]
 TRUSTED_BASE = ["Lean 4.33 kernel", "Spec/ISO9564.lean well-formedness predicates are my reading of ISO 9564-1", "format-4 PAN binding additionally assumes AES pseudo-randomness",
                 "correspondence harness and compiled driver"]
 RULE = ("every control nibble x every length nibble x bodies within two nibble-class deviations (digit / A-E / F) of a well-formed body for all four formats, plus uniformly "
@@ -47,6 +47,16 @@ def one(c, fmt, nibs, pan, maskbytes):
         if r.ok and not (4 <= len(r.value) <= 12 and all(ch in "0123456789" for ch in r.value)):
             return f"returned PIN {r.value!r} is not 4-12 decimal digits"
     c.pred("decoder accepts exactly the well-formed blocks", p)
+    if r.ok and isinstance(r.value, str):
+        # Translate.translate_to_iso0_iso2 on the implementation: whatever a decoder returned is inside every encoder's domain
+        # and the re-encoded block decodes to the same PIN at the next hop
+        tpan = pan if (haspan and isinstance(pan, str) and len(pan) >= 13) else "4000001234567899"
+        e0 = c.call("pinblock.encode_pinblock_iso_0", r.value, tpan)
+        e2 = c.call("pinblock.encode_pinblock_iso_2", r.value)
+        d0 = c.call("pinblock.decode_pinblock_iso_0", e0.value, tpan) if e0.ok else e0
+        d2 = c.call("pinblock.decode_pinblock_iso_2", e2.value) if e2.ok else e2
+        if not (d0.ok and d0.value == r.value and d2.ok and d2.value == r.value):
+            c.fail(f"a PIN returned by {fn} does not survive re-encoding in format 0 / format 2 (PIN translation)")
     return r
 
 
